@@ -104,6 +104,12 @@ func init() {
 				func(x string) []string { return []string{x + ".Id", x + ".GetId()"} },
 				"no candidate yet || snapshot.Id > best.Id")
 			if best == nil {
+				// collect-then-select: every snapshot of the listing is appended to a slice (no guard
+				// between the decode and the append), and the loaded one is slices.MaxFunc of that slice
+				// under a comparator that orders by id ascending
+				if r.collectThenMaxByID(f, loop, idField, getID) {
+					return
+				}
 				r.Fail(f.Name()+":no-selection", loop.Pos(), nil, "LoadCheckpoint neither stops at the first *.snapshot nor keeps the snapshot with the highest id")
 				return
 			}
@@ -330,4 +336,90 @@ func (r *Run) isOrderPreservingDescending(f *prog.FuncInfo) bool {
 		return true
 	})
 	return reversed
+}
+
+// collectThenMaxByID recognises `for ... { snaps = append(snaps, snap) }; best = slices.MaxFunc(snaps,
+// func(a, b) int { return cmp.Compare(a.Id, b.Id) })` (also a.Id - b.Id style comparators are NOT
+// accepted: only cmp.Compare of the two ids in parameter order).
+func (r *Run) collectThenMaxByID(f *prog.FuncInfo, loop ast.Stmt, idField *types.Var, getID *types.Func) bool {
+	info := f.Pkg.TypesInfo
+	var body *ast.BlockStmt
+	switch x := loop.(type) {
+	case *ast.RangeStmt:
+		body = x.Body
+	case *ast.ForStmt:
+		body = x.Body
+	default:
+		return false
+	}
+	// the collecting slice: appended at the top level of the loop body (not under an if)
+	var coll types.Object
+	for _, st := range body.List {
+		as, ok := st.(*ast.AssignStmt)
+		if !ok || len(as.Lhs) != 1 || len(as.Rhs) != 1 {
+			continue
+		}
+		call, ok := ast.Unparen(as.Rhs[0]).(*ast.CallExpr)
+		if !ok || len(call.Args) != 2 {
+			continue
+		}
+		if id, isID := call.Fun.(*ast.Ident); !isID || id.Name != "append" || info.Uses[id] != types.Universe.Lookup("append") {
+			continue
+		}
+		if o := prog.IdentObjPlain(info, as.Lhs[0]); o != nil && prog.IdentObjPlain(info, call.Args[0]) == o {
+			coll = o
+		}
+	}
+	if coll == nil {
+		return false
+	}
+	found := false
+	inspect(f.Decl.Body, func(nd ast.Node) bool {
+		call, ok := isCallToNamed(info, nodeExpr(nd), "slices", "MaxFunc")
+		if !ok || len(call.Args) != 2 || call.Pos() < loop.End() || prog.IdentObjPlain(info, call.Args[0]) != coll {
+			return true
+		}
+		lit := funcValueLit(r.P, info, call.Args[1])
+		if lit == nil || lit.Type.Params == nil {
+			return true
+		}
+		var ps []types.Object
+		for _, fld := range lit.Type.Params.List {
+			for _, n := range fld.Names {
+				ps = append(ps, info.Defs[n])
+			}
+		}
+		if len(ps) != 2 || len(lit.Body.List) != 1 {
+			return true
+		}
+		ret, isRet := lit.Body.List[0].(*ast.ReturnStmt)
+		if !isRet || len(ret.Results) != 1 {
+			return true
+		}
+		cc, isCmp := isCallToNamed(info, ret.Results[0], "cmp", "Compare")
+		if !isCmp || len(cc.Args) != 2 {
+			return true
+		}
+		idOf := func(e ast.Expr) types.Object {
+			switch x := ast.Unparen(e).(type) {
+			case *ast.SelectorExpr:
+				if prog.SelField(info, x) == idField {
+					return prog.IdentObjPlain(info, x.X)
+				}
+			case *ast.CallExpr:
+				if r.P.CalleeFunc(info, x) == getID {
+					if sel, isSel := ast.Unparen(x.Fun).(*ast.SelectorExpr); isSel {
+						return prog.IdentObjPlain(info, sel.X)
+					}
+				}
+			}
+			return nil
+		}
+		if idOf(cc.Args[0]) == ps[0] && idOf(cc.Args[1]) == ps[1] && ps[0] != nil {
+			r.Site(call.Pos(), "LoadCheckpoint selects slices.MaxFunc by id over all listed snapshots")
+			found = true
+		}
+		return true
+	})
+	return found
 }
